@@ -21,6 +21,7 @@ from __future__ import annotations
 
 import dataclasses
 import itertools
+import collections.abc
 import sys
 import typing
 
@@ -303,6 +304,17 @@ class Tree:
         tags: "dict[str, Tree.Branch.Tag]"
     root: Branch
     first: "Tree.Branch.Tag"
+T = typing.TypeVar("T")
+class Factory(typing.Generic[T]):
+    """a user generic whose instances can be called (a virtual subclass of collections.abc.Callable)"""
+    made: list[T]
+    def __call__(self) -> T:
+        return self.made[-1]
+@dataclasses.dataclass
+class Catalog:
+    seen: dict[str, None]
+    makers: list[Factory[Outer.Inner]]
+    flags: tuple[int, None] = (0, None)
 '''
 SAME_A = '''
 import dataclasses
@@ -365,6 +377,17 @@ def special_programs():
     out.append(("nested:Tree.Branch", N.Tree.Branch))
     out.append(("nested:Tree.Branch.Tag", N.Tree.Branch.Tag))
     out.append(("nested:list[Tree.Branch]", list[N.Tree.Branch]))
+    # the literal None as a generic argument (a set written as a mapping, a fixed slot that is always empty) and a subscripted
+    # user generic that defines __call__
+    out.append(("none-arg:dict[str, None]", dict[str, None]))
+    out.append(("none-arg:list[None]", list[None]))
+    out.append(("none-arg:tuple[int, None]", tuple[int, None]))
+    out.append(("none-arg:tuple[None, ...]", tuple[None, ...]))
+    out.append(("none-arg:Mapping[str, None]", collections.abc.Mapping[str, None]))
+    out.append(("none-arg:list[dict[str, None]]", list[dict[str, None]]))
+    out.append(("callable-generic:Factory[Inner]", N.Factory[N.Outer.Inner]))
+    out.append(("callable-generic:list[Factory[Tag]]", list[N.Factory[N.Tree.Branch.Tag]]))
+    out.append(("callable-generic:Catalog", N.Catalog))
     out.append(("same-name:b.Item", B.Item))
     out.append(("same-name:list[b.Item]", list[B.Item]))
     out.append(("same-name:tuple[a.Item, b.Item]", tuple[A.Item, B.Item]))
